@@ -58,6 +58,7 @@ pub fn is_lax_int(b: &[u8]) -> bool {
 
 pub const K_EMPTY_KEY: &str = "K01-empty-key-refused";
 pub const K_LAX_INT: &str = "K02-lax-integer-syntax";
+pub const K_XADD_MAX: &str = "K03-xadd-auto-at-max-id";
 
 pub fn probe_empty_key(wk: &mut Worker) -> Result<bool, String> {
     let mut c = wk.server()?.client().map_err(|e| e.to_string())?;
@@ -73,10 +74,27 @@ pub fn probe_lax_int(wk: &mut Worker) -> Result<bool, String> {
     Ok(!r.is_error())
 }
 
+pub fn probe_xadd_max(wk: &mut Worker) -> Result<bool, String> {
+    let mut c = wk.server()?.client().map_err(|e| e.to_string())?;
+    let _ = c.cmd(&[b"DEL".as_ref(), b"probe:xmax"]);
+    let _ = c.cmd(&[b"XADD".as_ref(), b"probe:xmax", b"18446744073709551615-18446744073709551615", b"f", b"v"]);
+    let r = c.cmd(&[b"XADD".as_ref(), b"probe:xmax", b"*", b"f", b"v"]);
+    let _ = c.cmd(&[b"DEL".as_ref(), b"probe:xmax"]);
+    Ok(!r.is_error())
+}
+
 /// Exclusions shared by C01/C03/C04/C15 histories.
 pub fn common_excluder(a: &Active, w: &mut World, conn: usize, c: &Cmd) -> Option<&'static str> {
     if a.has(K_EMPTY_KEY) && key_positions(c).iter().any(|i| c[*i].is_empty()) {
         return Some(K_EMPTY_KEY);
+    }
+    if a.has(K_XADD_MAX) && c.len() >= 3 && upper(&c[0]) == "XADD" && c[2] == b"*" {
+        let db = w.conns[conn].db;
+        if let Some(Val::Stream(s)) = w.dbs[db].keys.get(&c[1]).map(|e| &e.val) {
+            if s.last_id == (u64::MAX, u64::MAX) {
+                return Some(K_XADD_MAX);
+            }
+        }
     }
     if a.has(K_LAX_INT) {
         if int_positions(c).iter().any(|i| is_lax_int(&c[*i])) {
